@@ -155,3 +155,7 @@ def run(ctx):
         ctx.ob("R4", "fingerprint_url/host/keeps-domain-part", idx == 0, "fingerprint_url keeps element %r of split_suffix (the suffix) instead of the domain part" % (idx,), site)
     from .c03 import fingerprint_over_normalize
     fingerprint_over_normalize(ctx, "R5")
+    # platform_aware=True routes through is_facebook_url on the string: its host language must not depend on the port
+    import json as _json2
+    from .c18 import site_languages, SPEC as _SPEC
+    site_languages(ctx, "R6", "facebook", _json2.load(open(_SPEC))["facebook"])
